@@ -12,12 +12,14 @@ CLAIMED = {
          'Every feasible path of WebSocket.connect()->session.run()->feed->stream->parser->Message.build over N symbolic stream bytes '
          '(all opcodes, FIN/RSV patterns, length forms, fragmentations and control-frame placements that fit) is enumerated with z3 deciding '
          'each branch; per path the event list/payload terms are proved equal to an independent RFC 6455 receiver model run on the same symbolic bytes, '
-         'incl. the aliasing clause (receive buffer scribbled before payloads are compared). Bounded model checking of the real code: right level because the '
+         'incl. the aliasing clause (receive buffer scribbled before payloads are compared); plus fragmentation templates, a boundary grid of payload lengths in every length form, '
+         'and an INDUCTIVE STEP on the payload-read state with a symbolic announced length (every length at once). Bounded model checking of the real code: right level because the '
          'property is universal over inputs and the interesting inputs (fragment + interleaved control + boundary lengths) are rare.'),
  'C04': ('model_checking', '3 (C04)',
          'Same exploration without conformance filter: an RFC 6455 validity classifier on the symbolic stream names the first violating frame; '
          'obligations: earlier messages delivered, exactly one ProtocolError once the violating frame is complete, nothing of it delivered, '
-         'non-graceful Disconnected, at most one Close written afterwards. Includes all 65536 two-byte headers as symbolic obligations.'),
+         'non-graceful Disconnected, at most one Close written afterwards. Includes all 65536 two-byte headers as symbolic obligations, all 2^16/2^64 extended lengths, all close codes, '
+         'and the same sweeps in the closing state (application close() at Ready).'),
  'C05': ('model_checking', '3 (C05)',
          'Layer 1 (closed, unbounded in input length): product construction of the real Utf8Validator (one symbolic byte per step, DFA table ITE-encoded from the '
          'imported module) with the RFC 3629 ABNF automaton; bisimulation closure + chunk-independence obligations, all unsat. Layer 2 (bounded): text/close '
@@ -68,7 +70,8 @@ CLAIMED = {
  'C18': ('model_checking', '3 (C18), 6',
          'REDUCED SCOPE (inductive step): real SelectorBase.wait / PollSelector.wait_readable / run() loop body / _recv against an abstract transport with two symbolic counters '
          '(kernel bytes k, TLS-decrypted bytes q) and a symbolic record size: an iteration blocks only when k=q=0, otherwise consumes >=1 byte in zero virtual time, count in range, '
-         'no byte lost; induction on iterations gives draining of any burst. Kernel selectors, real ssl buffering and loopback runs are outside (not encodable).'),
+         'no byte lost; induction on iterations gives draining of any burst. The premise (bytes handed to feed are delivered in the same cycle, Pongs written) is checked on the REAL pipeline at '
+         'every read boundary for bounded streams. Kernel selectors, real ssl buffering and loopback runs are outside (not encodable).'),
  'C06': ('model_checking', '3 (C06), 6',
          'REDUCED SCOPE: DEFLATE itself is not encoded (zlib C code; its losslessness is trusted). zlib is replaced by an executable abstract streaming codec whose output carries explicit '
          '(deflater generation, message sequence, window bits) tags; a reference RFC 7692 peer applies the NEGOTIATED parameters (symbolic window digits, spellings, both takeover flags '
